@@ -208,12 +208,12 @@ pub fn family(tier: Tier) -> Vec<Spec> {
                 specs.extend(single_forms(t, true, true));
                 specs.extend(single_forms(t, false, false));
             }
-            // pairs over the light part of F(1)
-            let light: Vec<&str> = vec!["a", "b", "[ab]", "[^a]", ".", "é", "$"];
-            let l1 = terms(&light, 1, &["*", "+", "?", "{2}", "+?"], &["i"]);
+            // all pairs of F(1) over the core atoms + end assertions, default and explicit priorities
+            let light: Vec<&str> = vec!["a", "b", "[ab]", "[^a]", ".", "é", "$", "(?m:$)"];
+            let l1 = terms(&light, 1, POSTFIX, &["i"]);
             for (i, a) in l1.iter().enumerate() {
                 for b in &l1[i..] {
-                    specs.extend(pair_forms(a, b, true, &[PrioScheme::Default, PrioScheme::Desc], false));
+                    specs.extend(pair_forms(a, b, true, &[PrioScheme::Default, PrioScheme::Desc, PrioScheme::Asc], false));
                 }
             }
             let f0 = terms(&atoms, 0, &[], &[]);
@@ -257,7 +257,9 @@ pub fn family(tier: Tier) -> Vec<Spec> {
     // overlapping triples / quadruples under EVERY order of explicit priorities (a pattern that
     // outranks its predecessor but not an earlier one, etc.) and under default priorities
     let pool: Vec<&str> = match tier {
-        Tier::Quick => vec!["a", "a+", "[ab]+", "a|b", "ab?", "[ab]", "aa?", "a[ab]*", ".", "[^b]+", "aa"],
+        // (Unicode-heavy members such as `.` cost ~30 ms of DFA construction per definition; the
+        // quick pool keeps one, the thorough pool has them all)
+        Tier::Quick => vec!["a", "a+", "[ab]+", "a|b", "ab?", "[ab]", "aa?", "a[ab]*", ".", "[^b]+", "aa", "a$|a", "(?i:a)"],
         Tier::Thorough => vec!["a", "a+", "[ab]+", "a|b", "ab?", "[ab]", "aa?", "a[ab]*", ".", "[^b]+", "aa", "(?i:a)", "a{1,2}", "[a-c]", "a$|a", "é|a", "b*a"],
     };
     // every assignment of three priority levels to the three patterns: all orders AND all ties
@@ -279,6 +281,23 @@ pub fn family(tier: Tier) -> Vec<Spec> {
                     specs.push(Spec::new(true, pats.clone()));
                     if pr[0] == 1 {
                         specs.push(Spec::new(false, pats));
+                    }
+                }
+                // kinds: each position as a skip (skips are numbered first, so leaf order != written
+                // order) under the six strict priority orders, and with ignore(case) on one member
+                for pr in perms3.iter().filter(|pr| pr[0] != pr[1] && pr[1] != pr[2] && pr[0] != pr[2]) {
+                    for sk in 0..3 {
+                        let pats: Vec<Pat> = base
+                            .iter()
+                            .enumerate()
+                            .map(|(x, p)| if x == sk { Pat::skip(p).prio(3 + 2 * pr[x]) } else { Pat::regex(p).prio(3 + 2 * pr[x]) })
+                            .collect();
+                        specs.push(Spec::new(true, pats));
+                    }
+                    if pr[0] == 2 {
+                        let mut pats: Vec<Pat> = base.iter().enumerate().map(|(x, p)| Pat::regex(p).prio(3 + 2 * pr[x])).collect();
+                        pats[1].icase = true;
+                        specs.push(Spec::new(true, pats));
                     }
                 }
                 // literal token first / last with explicit priorities around it
